@@ -89,18 +89,18 @@ theorem replica_is_original (cfgA : Config) (hcfgA : C11.ShardCfg cfgA) (stA : N
     rw [← hdesc.unexpired]; exact hunexp
   obtain ⟨hcache, _⟩ := announce_caches cfgB b.node tAnn (wire (manifestOf cfgA tStore id P ttl nonce shares)) hv ht hfree
   -- the CHUNK message A builds
+  obtain ⟨ttlA, httlA⟩ : ∃ x, manifestTtl (manifestOf cfgA tStore id P ttl nonce shares).expiresNs tServe cfgA.minTtl cfgA.maxTtl
+      = some x := Option.isSome_iff_exists.1 hserve
   have hmsg : chunkMessage cfgA (nodeAfterStore cfgA stA tStore id P ttl key nonce rk shares) tServe id
-      = some { chunkId := id, data := sealedData key id P nonce rk,
-               ttl := (manifestTtl (manifestOf cfgA tStore id P ttl nonce shares).expiresNs tServe cfgA.minTtl cfgA.maxTtl).get hserve } := by
+      = some { chunkId := id, data := sealedData key id P nonce rk, ttl := ttlA } := by
     unfold chunkMessage
     have e1 : find (nodeAfterStore cfgA stA tStore id P ttl key nonce rk shares).manifests id
         = some (manifestOf cfgA tStore id P ttl nonce shares) := find_upsert _ _ _
     have e2 : find (nodeAfterStore cfgA stA tStore id P ttl key nonce rk shares).chunks id
         = some (recordOf cfgA id P ttl key nonce rk) := find_upsert _ _ _
     rw [e1, e2]
-    cases hm : manifestTtl (manifestOf cfgA tStore id P ttl nonce shares).expiresNs tServe cfgA.minTtl cfgA.maxTtl with
-    | none => rw [hm] at hserve; simp at hserve
-    | some t => simp only [hm, Option.get_some]; rfl
+    simp only [httlA]
+    rfl
   have hserv : servable cfgA (nodeAfterStore cfgA stA tStore id P ttl key nonce rk shares) tServe id = true := by
     rw [servable_iff_message, hmsg]; rfl
   refine ⟨⟨‹_›, ‹_›, ‹_›, ‹_›, ‹_›, hthr, hunexp, ‹_›⟩, hcache, hserv, _, hmsg, rfl, rfl, ?_, ?_⟩
@@ -110,8 +110,7 @@ theorem replica_is_original (cfgA : Config) (hcfgA : C11.ShardCfg cfgA) (stA : N
     have hrecv := hrep cfgB (announceAdmitted cfgB b.node tAnn (wire (manifestOf cfgA tStore id P ttl nonce shares))) tArr ttlB rk2 harr
     obtain ⟨hacc2, _, _, hfetch⟩ := hrecv
     have hhc : handleChunk cfgB (announceAdmitted cfgB b.node tAnn (wire (manifestOf cfgA tStore id P ttl nonce shares))) tArr true
-        { chunkId := id, data := sealedData key id P nonce rk,
-          ttl := (manifestTtl (manifestOf cfgA tStore id P ttl nonce shares).expiresNs tServe cfgA.minTtl cfgA.maxTtl).get hserve } rk2
+        { chunkId := id, data := sealedData key id P nonce rk, ttl := ttlA } rk2
         = ((receiveChunk cfgB (announceAdmitted cfgB b.node tAnn (wire (manifestOf cfgA tStore id P ttl nonce shares))) tArr
               (some (wire (manifestOf cfgA tStore id P ttl nonce shares))) (sealedData key id P nonce rk) rk2).1, some true) := by
       unfold handleChunk
@@ -283,19 +282,7 @@ theorem replica_lifetime (cfg0 : Gen.C02.Cfg) (shardT shardN : Nat) (off : Int) 
     simp only [MTtl.writes, Gen.C02.receive_ttl_source, hgen, if_true]
   have hder := C03.derived cfg0 off t m.expiresNs (.receive true) _ hw
   -- 1 ≤ ttl and the replica's own deadline, from the shard write (same TTL, `steady + ttl·10⁹`)
-  have hpos : 1 ≤ ttl' := by
-    have := httl
-    unfold manifestTtl enforceManifestTtl at this
-    split at this
-    · cases this
-    · split at this
-      · cases this
-      · split at this
-        · cases this
-        · split at this
-          · cases this
-          · simp only [Option.some.injEq] at this
-            omega
+  have hpos : 1 ≤ ttl' := manifestTtl_pos httl
   have hshard := (hder ⟨.shard, Gen.C02.publish_shards_expires (Gen.C02.receive_shard_ttl ttl' (Ttl.effective cfg0)) t⟩
     (List.mem_cons_self)).1
   have hbound : t + off + ttl' * 1000000000 ≤ m.expiresNs := by
